@@ -62,10 +62,11 @@ fn build(a: &mut Allocator, spends: &[Spend]) -> NodePtr {
     a.new_pair(list, nil).unwrap()
 }
 
-fn run(spends: &[Spend], flags: ConsensusFlags) -> Result<SpendBundleConditions, ValidationErr> {
+fn run(spends: &[Spend], flags: ConsensusFlags) -> Result<SpendBundleConditions, ValidationErr> { run_budget(spends, flags, 11_000_000_000) }
+fn run_budget(spends: &[Spend], flags: ConsensusFlags, max_cost: u64) -> Result<SpendBundleConditions, ValidationErr> {
     let mut a = Allocator::new();
     let n = build(&mut a, spends);
-    parse_spends::<MempoolVisitor>(&a, n, 11_000_000_000, 0, flags | ConsensusFlags::DONT_VALIDATE_SIGNATURE, &Signature::default(), None, &TEST_CONSTANTS)
+    parse_spends::<MempoolVisitor>(&a, n, max_cost, 0, flags | ConsensusFlags::DONT_VALIDATE_SIGNATURE, &Signature::default(), None, &TEST_CONSTANTS)
 }
 
 /// every aggregate of the summary (order-insensitive: per-spend parts keyed by the coin's parent byte, sorted; the
@@ -174,6 +175,16 @@ pub fn families() -> Vec<(String, Vec<Spend>)> {
     out.push(("ephemeral-asserted-not-created".into(), vec![
         Spend { parent: 1, amount: 1000, conds: vec![c(51, vec![vec![2u8; 32], be(401)])] },
         Spend { parent: 0xf1, amount: 400, conds: vec![c(76, vec![])] },
+    ]));
+    // a spend without any cost-bearing condition next to one with: the per-spend charge is the last thing to fit the budget
+    out.push(("two-spends-one-free".into(), vec![
+        Spend { parent: 1, amount: 1000, conds: vec![c(51, vec![vec![3u8; 32], be(600)])] },
+        Spend { parent: 5, amount: 7, conds: vec![] },
+    ]));
+    out.push(("three-spends-free-middle".into(), vec![
+        Spend { parent: 1, amount: 1000, conds: vec![c(51, vec![vec![3u8; 32], be(600)])] },
+        Spend { parent: 5, amount: 7, conds: vec![c(1, vec![])] },
+        Spend { parent: 6, amount: 9, conds: vec![c(73, vec![be(9)])] },
     ]));
     // the spend-count limit
     for n in [5999usize, 6000, 6001] {
@@ -333,6 +344,30 @@ pub fn check_family(name: &str, spends: &[Spend], thorough: bool) -> (u64, Vec<F
                             message: format!("family {name}, fork flags {fname}: conditions of spend {si} {oname}: {got}; original order: {relaxed}"),
                             input: json!({"family": name, "relation": "cond-order", "order": oname, "spend": si, "fork": fname}) });
                     }
+                }
+            }
+        }
+        // (c) with a budget of exactly the cost: every order is accepted, like the original one (the limit is not order dependent)
+        if let Ok(orig) = run(spends, ff) {
+            let budget = orig.cost;
+            let mut variants: Vec<(String, Vec<Spend>, Vec<u8>)> = vec![("original".to_string(), spends.to_vec(), parents.clone())];
+            if spends.len() >= 2 && spends.len() <= 8 {
+                let mut rev = spends.to_vec(); rev.reverse();
+                let pr: Vec<u8> = rev.iter().map(|s| s.parent).collect();
+                variants.push(("spends-reversed".to_string(), rev, pr));
+            }
+            if spends.len() <= 2 {
+                for (si, s) in spends.iter().enumerate() {
+                    if s.conds.len() >= 2 { let mut sp = spends.to_vec(); sp[si].conds.reverse(); variants.push((format!("conditions-reversed-spend{si}"), sp, parents.clone())); }
+                }
+            }
+            for (vname, sp, pars) in variants {
+                n += 1;
+                let got = summary(&run_budget(&sp, ff, budget), &pars);
+                if got != relaxed {
+                    fails.push(Failure { id: format!("relations_ground/{name}/exact-budget-{vname}/{fname}"),
+                        message: format!("family {name}, fork flags {fname}, budget {budget} (exactly the cost), order {vname}: {got}; with ample budget: {relaxed}"),
+                        input: json!({"family": name, "relation": "exact-budget", "order": vname, "fork": fname}) });
                 }
             }
         }
